@@ -505,3 +505,28 @@ Example C04_guards_needed :
   /\ create_src_params_recarray (w_map w) [100; 101] (Some (inl [1; 7])) = Err IndexError
   /\ create_src_params_recarray (w_map w) [100] None = Err ValueError.
 Proof. cbv zeta. repeat split; vm_compute; reflexivity. Qed.
+
+(* ================= extension: get_floating_params_dict / create_global_floating_params_dict =================
+   the dictionary of the floating parameters only: floating names in declaration order, zipped with the
+   vector (zip truncates: a short vector drops the last names, surplus entries are ignored) *)
+Theorem C04_floating_params_dict : forall st s ps vec,
+  Consistent st s ps ->
+  forall n, dict_get (get_floating_params_dict s vec) n = s_lookup (combine (s_floating_names (table_of ps)) vec) n.
+Proof. exact floating_params_dict_ok. Qed.
+Print Assumptions C04_floating_params_dict.
+
+(* end to end: for every operation sequence the mapper's dictionary is the reading of the world the
+   specification interpreter computes *)
+Theorem C04_e2e_global_floating_params_dict : forall src ops vec,
+  forall n, dict_get (create_global_floating_params_dict (w_map (run (init src) ops)) vec) n
+            = s_lookup (combine (s_floating_names (table_of (a_g (s_run (s_init src) ops)))) vec) n.
+Proof. exact global_floating_params_dict_reachable. Qed.
+Print Assumptions C04_e2e_global_floating_params_dict.
+
+Example C04_floating_params_dict_nonvacuous :
+  let m := w_map (run (init [false; true; true]) ex_ops) in
+  s_floating_names (table_of (a_g (s_run (s_init [false; true; true]) ex_ops))) = [0; 2]
+  /\ create_global_floating_params_dict m [100; 101] = [(0, 100); (2, 101)]
+  /\ create_global_floating_params_dict m [100] = [(0, 100)]
+  /\ create_global_floating_params_dict m [100; 101; 102] = [(0, 100); (2, 101)].
+Proof. cbv zeta. repeat split; vm_compute; reflexivity. Qed.
